@@ -19,6 +19,15 @@ def gen_scenario(rng, P=None):
       main += [["start"], ["settle"], ["alive"]]
     main += [["pub", other, 1], ["settle"], ["stop"], ["settle"], ["alive"], ["start"], ["alive"]]
     return {"nq": 2, "main": main, "pub2": [], "equal_queues": rng.random() < 0.5, "pre_start": False}
+  if P.get("resub") and rng.random() < P["resub"]:
+    # a queue subscribes AGAIN while publications of that signal are being delivered to it and to the queues registered after it
+    sig, kind = rng.choice(SIGS), rng.choice(["fifo", "lifo"])
+    main = [["start"]] + [["sub", i, sig, kind] for i in range(3)] + [["pub", sig, 1]]
+    main += [["sub", rng.choice([0, 0, 1]), sig, kind]]
+    if rng.random() < 0.5:
+      main += [["pub", sig, 1], ["sub", rng.choice([0, 1]), sig, kind]]
+    main += [["settle"], ["alive"]]
+    return {"nq": 3, "main": main, "pub2": [["pub", sig, 1]] * rng.randint(0, 2), "equal_queues": rng.random() < 0.5, "pre_start": False}
   nq = rng.randint(2, 3)
   ops = []
   started = False
@@ -45,7 +54,11 @@ def gen_scenario(rng, P=None):
   ops.append(["alive"])
   # a second thread that only publishes (active objects publish from their own threads)
   pubs = [["pub", rng.choice(SIGS), rng.choice(P.get("prios", [1, 1, 2, 3]))] for _ in range(rng.randint(0, P.get("max_pub2", 3)))]
-  return {"nq": nq, "main": ops, "pub2": pubs, "equal_queues": rng.random() < 0.7, "pre_start": rng.random() < 0.5}
+  scen = {"nq": nq, "main": ops, "pub2": pubs, "equal_queues": rng.random() < 0.7, "pre_start": rng.random() < 0.5}
+  if P.get("long_lived") and rng.random() < P["long_lived"]:
+    # a process that has been publishing for a long time: the fabric's event counter is near a power of two
+    scen["count_start"] = rng.choice([2**15, 2**16, 2**31, 2**32, 2**63]) - rng.randint(1, 4)
+  return scen
 
 
 class FabRun:
@@ -128,6 +141,13 @@ class FabRun:
         self.af = ma.ActiveFabric()
         self.fix_names()
         self.queues, self.qname = [], {}
+        import itertools as _it
+        fe = getattr(ma, "FabricEvent", None)
+        old_count = getattr(fe, "count", None)
+        if scen.get("count_start") and isinstance(old_count, type(_it.count())):
+          fe.count = _it.count(scen["count_start"])
+        else:
+          old_count = None
 
         class BadQueue:            # "queue" of a faulty client: no append()
           def __eq__(self, other):
@@ -168,6 +188,11 @@ class FabRun:
                "final_threads": [nf, nl], "schedule": [c[0] for c in sched.choices],
                "queues": [[shims.ident(x) for x in q.raw()] for q in self.queues], "poisoned": sorted(self.poisoned)}
       finally:
+        try:
+          if old_count is not None:
+            fe.count = old_count
+        except NameError:
+          pass
         left = sched.teardown()
         if left:
           res["leaked_threads"] = left
